@@ -169,6 +169,28 @@ Fixpoint all_sat (p : cpol) : bool :=
   | _ => true
   end.
 
+(* the normal form normalized() is meant to produce: no constants below the root, at least
+   two children per threshold, 1 <= k <= n, no and directly under an and, no or directly
+   under an or *)
+Definition is_and_node (s : spol) : bool := match s with SThresh k l => k =? length l | _ => false end.
+Definition is_or_node (s : spol) : bool := match s with SThresh k _ => k =? 1 | _ => false end.
+Fixpoint is_normal (p : spol) : bool :=
+  match p with
+  | SThresh k subs =>
+      (2 <=? length subs) && (1 <=? k) && (k <=? length subs)
+      && forallb (fun s => negb (is_const s)) subs
+      && (if k =? length subs then forallb (fun s => negb (is_and_node s)) subs else true)
+      && (if k =? 1 then forallb (fun s => negb (is_or_node s)) subs else true)
+      && forallb is_normal subs
+  | _ => true
+  end.
+(* no Trivial/Unsatisfiable below the root *)
+Fixpoint no_inner_const (p : spol) : bool :=
+  match p with
+  | SThresh _ subs => forallb (fun s => negb (is_const s) && no_inner_const s) subs
+  | _ => true
+  end.
+
 (* ------------------------------------------------------------------------------------
    Executable forms used by the per-run oracle (Tables/PolicyCasesCheck.v): the truth
    table of a policy over its own leaves.  PolSemanticProofs shows that they decide the
@@ -206,3 +228,25 @@ Definition min_sigs_b (p : spol) : option nat :=
                else best)
             (assignments (leaves_of p)) None.
 Definition mixed_b (p : cpol) : bool := existsb path_mixes (paths p).
+
+(* ------------------------------------------------------------------------------------
+   Input classes on which the pinned implementation is known to deviate from the
+   specification (each is the side condition of a theorem in Properties/C18.v and the key
+   of a line in known_findings.txt). *)
+(* entails matches Unsatisfiable/Trivial on the arguments BEFORE normalizing them *)
+Definition entails_defect (a b : spol) : bool :=
+  match a with
+  | SUnsat => false
+  | STriv => negb (is_triv b) && is_triv (normalized b)
+  | _ => is_unsat (normalized a) && (is_unsat b || negb (is_const (normalized b)))
+  end.
+(* minimum_n_keys counts key leaves, not distinct keys *)
+Definition has_dup_keys (p : spol) : bool :=
+  negb (length (dedupN (keys_of p)) =? length (keys_of p)).
+(* Concrete::And is lifted with the constant threshold 2 *)
+Fixpoint and_arity_bad (c : cpol) : bool :=
+  match c with
+  | CAnd subs => negb (length subs =? 2) || existsb and_arity_bad subs
+  | COr subs | CThresh _ subs => existsb and_arity_bad subs
+  | _ => false
+  end.
